@@ -89,7 +89,7 @@ def premises(ctx, engine, m):
                    {"engine": engine, "nodes": [str(v) for v in st.nodes()], "edges": [[str(u), str(v)] for u, v in st.edges()]}, concrete=False)
 
 
-EQ_CMDS = {"kfd", "kfdw", "kpc", "klae", "kmpe"}        # commands whose handler also offers <cmd>_eq (verified comparison)
+EQ_CMDS = {"kfd", "kfdw", "kpc", "klae", "kmpe", "klaec", "kmpec"}        # commands whose handler also offers <cmd>_eq (verified comparison)
 
 
 def vartok(v):
